@@ -41,7 +41,9 @@ ASSUMPTIONS = ['input strings are Latin-1',
                'statement-level theorems (fixed point; blanks inside { } < > [ ]; "+" of a lead; explicit [0]; runs of blanks and tabs; '
                'continuation lines) speak about statements NAME[k] = rhs given as token lists with a layout, under the decidable conditions '
                'Denorm.dq_ok / dq_ok_ws; that the equations fsic produces are of this form is checked per case by K_fixed_domain (the model reads '
-               'the real equation back with its own GTokenise.tokenise and evaluates dq_ok on it), not proved',
+               'the real equation back with its own GTokenise.tokenise and evaluates dq_ok on it); it is proved for the normal form of every source '
+               'statement under dq_ok_ws + sep_ok (C14_normal_form_in_fixed_point_domain, C14_normal_form_reparses: whatever the layout, the '
+               'normal form is a fixed point), not for arbitrary accepted text',
                'script-level theorems (comments, blank lines, statement independence, permutation) are about parse_model itself, for all scripts '
                'whose blocks end between statements (decidable premises, instances in Props/C14.v)',
                '"meaning of the generated code" = ast.dump(ast.parse(code)) (CPython)',
